@@ -22,7 +22,9 @@ GroupVariants == <<[has |-> FALSE, gb |-> <<>>, aliases |-> <<>>],
                    [has |-> FALSE, gb |-> <<>>, aliases |-> <<[alias |-> al, map |-> <<(<<1, fA>>), (<<2, fX>>)>>]>>],
                    \* an alias whose NAME the field mapping would rename (g1 -> G1), defined for rule 2 only, in the group-by:
                    \* an alias name is kept whatever the item's conditions make of the rules it is defined for
-                   [has |-> TRUE, gb |-> <<g1>>, aliases |-> <<[alias |-> g1, map |-> <<(<<2, fX>>)>>]>>]>>
+                   [has |-> TRUE, gb |-> <<g1>>, aliases |-> <<[alias |-> g1, map |-> <<(<<2, fX>>)>>]>>],
+                   \* a group-by list WITHOUT entries
+                   [has |-> TRUE, gb |-> <<>>, aliases |-> <<>>]>>
 Cond(kind, op, count, hasfield, haspct, expr) ==
     [kind |-> kind, op |-> op, count |-> count, hasfield |-> hasfield, field |-> ff, haspct |-> haspct, pct |-> 75, expr |-> expr, frac |-> FALSE]
 MkB(ts, ty, no, op, pi) == [tsmode |-> ts, typing |-> ty, norm |-> no, optin |-> op, pipe |-> pi]
@@ -76,7 +78,9 @@ CasesC == {[c |-> Corr(t, RefsOf(a), 2, [count |-> 5, unit |-> 109], Cond("ext",
 Rev(q) == [i \in 1..Len(q) |-> q[Len(q) + 1 - i]]
 CasesC2 == {[c |-> [Corr(t, Rev(RefsOf(a)), 2, [count |-> 5, unit |-> 109], Cond("ext", "gte", 1, FALSE, FALSE, CPrint(a, "min")), FALSE) EXCEPT !.explicit = TRUE],
              B |-> BSeq[b]] : t \in {3, 4}, a \in ExtAsts, b \in {1, 20}}
-ASSUME LET S == SetToSeq(CasesC2 \cup CasesA \cup CasesF \cup CasesW \cup CasesW2 \cup CasesW3 \cup CasesW4 \cup CasesB \cup CasesC)
+CasesG == {[c |-> Corr(t, RefSets[r], 6, [count |-> 5, unit |-> 109], Cond("basic", "gte", 2, NeedsField(t), t = 7, <<>>), FALSE), B |-> BSeq[b]] :
+             t \in {1, 2, 3}, r \in {1, 3}, b \in {1, 7, 20, 33}}
+ASSUME LET S == SetToSeq(CasesG \cup CasesC2 \cup CasesA \cup CasesF \cup CasesW \cup CasesW2 \cup CasesW3 \cup CasesW4 \cup CasesB \cup CasesC)
        IN  ndJsonSerialize(IOEnv.VERIF_OUT, [i \in 1..Len(S) |-> [id |-> i] @@ S[i]])
 Init == x = 0
 Next == UNCHANGED x
